@@ -5,7 +5,7 @@ from . import coregen
 
 AREA = 'core'
 MODEL_FILES = 'CoreDefs.v (cJSON_Duplicate, cJSON_Duplicate_rec, cJSON_Delete), CoreOps.v (dump, owned_blocks)'
-RULE = ('random trees with reference nodes and constant keys built by histories, duplicated (recursively and not) at random points; the copy must dump like the source with the '
+RULE = ('random trees with reference nodes and constant keys built by histories, duplicated (recursively and not) at random points; the same histories with every block the library holds made READ-ONLY (arena allocator + mprotect) around each run of duplicate / query calls, so that any store into the source faults; the copy must dump like the source with the '
         'reference bits cleared and no sibling links, the implementation side checks pointer-disjointness of every owned block of source and copy; the histories then go on '
         'editing / deleting either tree and every live root is re-dumped after every call (the untouched tree must not change); ledger after every call; plus chains of depth '
         'CJSON_CIRCULAR_LIMIT-1 … +3, containers with about CJSON_CIRCULAR_LIMIT children (flat and a few levels down: the limit bounds depth, not width) and hand-built 1-/2-/3-cycles duplicated on a thread with a 2 MB stack (NULL, ledger restored, source depth unchanged); '
